@@ -112,6 +112,12 @@ fn format_level_harnesses(ctx: &mut vmc::Ctx) {
                     return None;
                 }
                 c.restricted(&|s| matches!(s, Script::Seq(0) | Script::Mixed(_)) || matches!(s, Script::Query(l, _) if *l == "three-regions" || *l == "same-region-twice"))
+            } else if c.format == Format::Cram && ctx.quick() {
+                // CRAM executions are the expensive ones: one document, three scripts in the quick tier
+                if !small.iter().any(|s| s.name == c.name) {
+                    return None;
+                }
+                c.restricted(&|s| matches!(s, Script::Seq(_)) || matches!(s, Script::Query(l, _) if *l == "same-region-twice"))
             } else {
                 c.restricted(&|_| true)
             }
